@@ -43,6 +43,7 @@ func init() {
 			{ID: "R18i", Floor: 1, Doc: "extract: file content is copied into the created file itself (or a repository writer whose Write forwards every byte it claims to have written)", Run: ruleR18i},
 			{ID: "R18f", Floor: 1, Doc: "the extractor never removes, renames or truncates what it created", Run: ruleR18f},
 			{ID: "R18e", Floor: 1, Doc: "symlink target verbatim", Run: ruleR18e},
+			{ID: "R18j", Floor: 2, Doc: "the index that extract generates for a CARv1 records true section offsets (= R03b)", Run: ruleR03b},
 		},
 	})
 }
